@@ -17,6 +17,7 @@ package cgozlib
 
 /*
 #cgo pkg-config: zlib
+#include <stdlib.h>
 #include "zlib.h"
 
 typedef struct {
@@ -121,7 +122,13 @@ type Reader struct {
 	readErr error
 	zlibErr error
 
-	z C.z_stream
+	// z is allocated in C memory (by Reset, freed by Close), not embedded in
+	// this Go struct. During a cgozlib_inflate call, zlib stores pointers
+	// into Go buffers (including the one-past-the-end pointer of a completely
+	// filled p) in z.next_in and z.next_out. If z were Go memory, a
+	// concurrent garbage collection could see those pointers and crash with
+	// "found pointer to free object" or "pointer to unallocated span".
+	z *C.z_stream
 	a C.advances
 }
 
@@ -137,7 +144,13 @@ func (r *Reader) Reset(reader io.Reader, dictionary []byte) error {
 		return errNilIOReader
 	}
 
-	if e := C.cgozlib_inflateInit(&r.z); e != 0 {
+	r.z = (*C.z_stream)(C.calloc(1, C.sizeof_z_stream))
+	if r.z == nil {
+		return errCode(-4)
+	}
+	if e := C.cgozlib_inflateInit(r.z); e != 0 {
+		C.free(unsafe.Pointer(r.z))
+		r.z = nil
 		return errCode(e)
 	}
 
@@ -163,7 +176,10 @@ func (r *Reader) Close() error {
 	r.dict = nil
 	r.readErr = nil
 	r.zlibErr = nil
-	if e := C.cgozlib_inflateEnd(&r.z); e != 0 {
+	e := C.cgozlib_inflateEnd(r.z)
+	C.free(unsafe.Pointer(r.z))
+	r.z = nil
+	if e != 0 {
 		return errCode(e)
 	}
 	return nil
@@ -204,7 +220,7 @@ func (r *Reader) Read(p []byte) (int, error) {
 			continue
 		}
 
-		e := C.cgozlib_inflate(&r.z, &r.a,
+		e := C.cgozlib_inflate(r.z, &r.a,
 			(*C.Bytef)(unsafe.Pointer(&p[0])),
 			(C.uInt)(len(p)),
 			(*C.Bytef)(unsafe.Pointer(&r.buf[r.i])),
@@ -221,7 +237,7 @@ func (r *Reader) Read(p []byte) (int, error) {
 		} else if e == errCodeStreamEnd {
 			r.zlibErr = io.EOF
 		} else if (e == errCodeNeedDict) && (len(r.dict) > 0) {
-			e = C.cgozlib_inflateSetDictionary(&r.z,
+			e = C.cgozlib_inflateSetDictionary(r.z,
 				(*C.Bytef)(unsafe.Pointer(&r.dict[0])),
 				(C.uInt)(len(r.dict)),
 			)
